@@ -268,24 +268,45 @@ fn c11() -> (bool, String) {
 /// C18: run `arg` = get_info | make_credential | get_assertion through the trait; a child process is used by the
 /// caller because the failure mode is unbounded recursion (stack overflow aborts the process).
 pub fn c18(arg: &str) -> (bool, bool, String) {
-    let store = RefStore::new(2);
-    register(&store, "a.example", true);
-    let mut direct = Authenticator::new(Aaguid::new_empty(), store.clone(), yes());
-    let store2 = RefStore::new(2);
-    *store2.items.lock().unwrap() = store.items.lock().unwrap().clone();
-    let mut via = Authenticator::new(Aaguid::new_empty(), store2.clone(), yes());
-    let same = match arg {
-        "get_info" => { let a = block_on(direct.get_info()); let b = block_on(Ctap2Api::get_info(&mut via)); a == b }
-        "make_credential" => {
-            let a = block_on(direct.make_credential(mc_request("a.example", true, false, true, None))).map(|_| ()).map_err(u8::from);
-            let b = block_on(Ctap2Api::make_credential(&mut via, mc_request("a.example", true, false, true, None))).map(|_| ()).map_err(u8::from);
-            a == b && store.snapshot().len() == store2.snapshot().len()
+    // sweep: store discoverability x request options x user response x (for makeCredential) exclude list / algorithm;
+    // both authenticators start from equal store contents; compared: result, store content, number of user prompts
+    let mut n = 0;
+    for disc in 0u8..3 {
+        for &(rk, up, uv) in &[(true, true, true), (false, true, true), (true, false, false), (true, true, false), (false, false, false), (false, true, false)] {
+            for &report in &[Ok((true, true)), Ok((false, false)), Err(0x27u8)] {
+                for variant in 0..3 {
+                    n += 1;
+                    let seed = RefStore::new(if disc == 1 { 0 } else { disc });
+                    let id = register(&seed, "a.example", true);
+                    let mk = |items: &RefStore| { let mut s = RefStore::new(disc); *s.items.lock().unwrap() = items.items.lock().unwrap().clone(); s.fail_save = None; s };
+                    let (s1, s2) = (mk(&seed), mk(&seed));
+                    let (u1, u2) = (Uv { capability: Some(true), report, shown: Default::default() }, Uv { capability: Some(true), report, shown: Default::default() });
+                    let mut direct = Authenticator::new(Aaguid::new_empty(), s1.clone(), u1.clone());
+                    let mut via = Authenticator::new(Aaguid::new_empty(), s2.clone(), u2.clone());
+                    let same = match arg {
+                        "get_info" => block_on(direct.get_info()) == block_on(Ctap2Api::get_info(&mut via)),
+                        "make_credential" => {
+                            let req = || { let mut r = mc_request("a.example", rk, up, uv, if variant == 1 { Some(vec![desc(&id)]) } else { None });
+                                           if variant == 2 { r.pub_key_cred_params[0].alg = coset::iana::Algorithm::RS256; } r };
+                            let a = block_on(direct.make_credential(req())).map(|_| ()).map_err(u8::from);
+                            let b = block_on(Ctap2Api::make_credential(&mut via, req())).map(|_| ()).map_err(u8::from);
+                            a == b && s1.snapshot().len() == s2.snapshot().len()
+                        }
+                        _ => {
+                            let allow = || if variant == 1 { Some(vec![desc(&id)]) } else if variant == 2 { Some(vec![desc(&[9, 9])]) } else { None };
+                            let a = block_on(direct.get_assertion(ga_request("a.example", allow(), up, uv))).map(|r| (r.auth_data.counter, r.signature.to_vec())).map_err(u8::from);
+                            let b = block_on(Ctap2Api::get_assertion(&mut via, ga_request("a.example", allow(), up, uv))).map(|r| (r.auth_data.counter, r.signature.to_vec())).map_err(u8::from);
+                            a == b && s1.snapshot() == s2.snapshot()
+                        }
+                    };
+                    let prompts = u1.shown.lock().unwrap().len() == u2.shown.lock().unwrap().len();
+                    if !same || !prompts {
+                        return (false, true, format!("{arg}: trait call differs from the direct method ({}) with store discoverability {disc}, options rk={rk} up={up} uv={uv}, user response {report:?}, variant {variant}",
+                            if same { "number of user prompts" } else { "result or store content" }));
+                    }
+                }
+            }
         }
-        _ => {
-            let a = block_on(direct.get_assertion(ga_request("a.example", None, true, true))).map(|r| (r.auth_data.counter, r.signature.to_vec())).map_err(u8::from);
-            let b = block_on(Ctap2Api::get_assertion(&mut via, ga_request("a.example", None, true, true))).map(|r| (r.auth_data.counter, r.signature.to_vec())).map_err(u8::from);
-            a == b && store.snapshot() == store2.snapshot()
-        }
-    };
-    (false, !same, if same { format!("{arg}: trait call agrees with the direct method") } else { format!("{arg}: trait call differs from the direct method") })
+    }
+    (false, false, format!("{arg}: trait call agrees with the direct method in {n} scenarios"))
 }
